@@ -219,7 +219,8 @@ fn literal() -> BoxedStrategy<MT> {
     prop_oneof![
         4 => lexicals().prop_map(MT::string),
         4 => (lexicals(), pick(dts)).prop_map(|(l, d)| MT::Lit(l, d)),
-        3 => (lexicals(), pick(vec!["en", "EN", "en-US", "fr", "fr-ca", "de-Latn-DE", "x-priv"])).prop_map(|(l, t)| MT::Lang(l, t.to_string())),
+        1 => (lexicals(), pick(crate::gen::near_miss_datatypes())).prop_map(|(l, d)| MT::Lit(l, d)),
+        3 => (lexicals(), pick(vec!["en", "EN", "en-US", "fr", "fr-ca", "de-Latn-DE", "x-priv", "en-t-ja", "de-DE-u-co-phonebk", "sl-rozaj-biske-1994", "es-419"])).prop_map(|(l, t)| MT::Lang(l, t.to_string())),
         2 => json_literal(),
     ]
     .boxed()
